@@ -1051,7 +1051,10 @@ def fifo_stream(
         It should not modify its input.
     """
 
-    def feed(instream, func, *, to_stop, q, preprocessor, **func_kwargs):
+    def feed(instream, func, to_stop, q, preprocessor, func_kwargs):
+        # `func_kwargs` is a dict, not `**func_kwargs`: the keyword arguments for the
+        # user's function must not be mixed up with the parameters of this function.
+        # (A user's `q=...` used to replace the queue, and the consumer waited forever.)
         try:
             for x in instream:
                 if to_stop.is_set():
@@ -1080,8 +1083,7 @@ def fifo_stream(
     to_stop = threading.Event()
     feeder = Thread(
         target=feed,
-        args=(instream, func),
-        kwargs={'to_stop': to_stop, 'q': tasks, 'preprocessor': preprocessor, **kwargs},
+        args=(instream, func, to_stop, tasks, preprocessor, kwargs),
         name=name,
     )
     feeder.start()
@@ -1142,7 +1144,8 @@ async def async_fifo_stream(
     Analogous to :func:`fifo_stream` except for using an async worker function in an async context.
     """
 
-    async def feed(instream, func, *, to_stop, tasks, preprocessor, **func_kwargs):
+    async def feed(instream, func, to_stop, tasks, preprocessor, func_kwargs):
+        # `func_kwargs` is a dict, not `**func_kwargs`; see `fifo_stream`.
         try:
             async for x in instream:
                 if to_stop.is_set():
@@ -1178,14 +1181,7 @@ async def async_fifo_stream(
     to_stop = asyncio.Event()
     tasks = asyncio.Queue(capacity + 1)
     feeder = asyncio.create_task(
-        feed(
-            instream,
-            func,
-            to_stop=to_stop,
-            tasks=tasks,
-            preprocessor=preprocessor,
-            **kwargs,
-        ),
+        feed(instream, func, to_stop, tasks, preprocessor, kwargs),
         name=name,
     )
 
